@@ -166,7 +166,7 @@ func runBP(p *Plan, tape *simrt.Tape, opt RunOpt) *RunOut {
 	})
 	out.addFS(fs)
 	out.FinalFS = fs
-	out.addProbes(d.Probes)
+	out.addDriver(d)
 	viol := cs.viol
 	if viol == nil && closeErr != nil {
 		viol = &Violation{Prop: p.Prop, Class: "bp/close-error", Msg: "Close returned " + closeErr.Error()}
